@@ -459,6 +459,40 @@ func guardedByJustValidate(fn *ssa.Function, in ssa.Instruction) bool {
 		}
 		return seen
 	}
+	// asymmetric avoidability: after one outcome of a justValidate test the setup call is unavoidable on the way to
+	// the next iteration, after the other it can be skipped
+	if hdIn, _ := loopOf(in.Block()); hdIn != nil {
+		target := firstInstr(hdIn)
+		for _, i := range ifs(fn) {
+			seenPhi = map[ssa.Value]bool{}
+			if !mentions(i.Cond) || i.Block().Succs[0] == i.Block().Succs[1] || !canReach(fn, i, in, cut{}) {
+				continue
+			}
+			avoid := [2]bool{}
+			for idx := 0; idx < 2; idx++ {
+				f := firstInstr(i.Block().Succs[idx])
+				if f == nil {
+					continue
+				}
+				if f == target {
+					avoid[idx] = true
+					continue
+				}
+				if f == in {
+					continue
+				}
+				avoid[idx] = canReach(fn, f, target, cut{instr: func(x ssa.Instruction) bool { return x == in }})
+				if !avoid[idx] {
+					// or leave through a return without the call
+					_, ret := reachesReturnAvoiding(fn, f, func(x ssa.Instruction) bool { return x == in })
+					avoid[idx] = ret
+				}
+			}
+			if avoid[0] != avoid[1] {
+				return true
+			}
+		}
+	}
 	var loopsOfIn []map[*ssa.BasicBlock]bool
 	for _, hd := range enclosingHeaders(in.Block()) {
 		loopsOfIn = append(loopsOfIn, naturalLoop(hd))
